@@ -824,6 +824,12 @@ impl<'a, Input: InputIndexer> MatchAttempter<'a, Input> {
 
                     &Insn::EndCaptureGroup(cg_idx) => {
                         let cg = self.s.groups.mat(cg_idx as usize);
+                        // Closing the group overwrites its previous bounds; save them so that
+                        // backtracking past this point restores them.
+                        self.bts.push(BacktrackInsn::SetCaptureGroup {
+                            id: cg_idx,
+                            data: *cg,
+                        });
                         if Dir::FORWARD {
                             debug_assert!(
                                 cg.start_matched(),
